@@ -282,7 +282,7 @@ def o_sustain(e):
 
 
 ACTIONS = {'addToHead': 0, 'addToTail': 1, 'addBefore': 2, 'addAfter': 3, 'addReplace': 4,
-           'h': 0, 't': 1, 'b': 2, 'a': 3, 'r': 4}
+           'h': 0, 't': 1, 'b': 2, 'a': 3, 'r': 4}     # numbers of the server command reference
 
 
 def o_note(e, rests, t, lat, defs):
@@ -792,7 +792,7 @@ class Gen:
         if k == 'group':
             return self.numv(str(r.choice([0, 1, 2, 1001])))
         if k == 'add_action':
-            return ['s', r.choice(['addToHead', 'addToTail', 'addBefore', 'addAfter', 'h', 't'])] if r.random() < 0.8 \
+            return ['s', r.choice(['addToHead', 'addToTail', 'addBefore', 'addAfter', 'addReplace', 'h', 't', 'b', 'a', 'r', 'b', 'a'])] if r.random() < 0.8 \
                 else self.numv(str(r.randint(0, 4)))
         if k in ('out', 'pan', 'foo', 'bar', 'gate'):
             return self.numv(self.dy(-1, 4, (1, 2, 4)))
@@ -1085,6 +1085,27 @@ class Check(common.Check):
             prog = ['pat', t0, cm() if rng.random() < 0.6 else ['par', cm(), cm()]]
         elif x < 0.76:
             prog = ['pat', t0, g.mono(defs)]
+        elif x < 0.82:
+            # Pseq([Pdur(d, p, tol, quant=q), next]): a source that ends before d is padded with silence up to
+            # the next multiple of q (written here as the Pdelta in front of what follows)
+            p, nxt = g.bind(defs), g.bind(defs)
+            q = rng.choice(['1', '1/2', '2', '3/4', '1/4'])
+            prog = None
+            try:
+                tl, total = o_timeline(p, ({}, set()))
+                d = total + F(rng.choice(['1/8', '1', '5/2'])) if rng.random() < 0.75 else F(g.dy(0, 4, (1, 2, 4)))
+                out, tot = o_timeline(['dur', str(d), '1/1000', p], ({}, set()))
+                ended = tot == total and total + F(1, 1000) < d
+                pad = math.ceil(total / F(q)) * F(q) - total
+                first = ['dur', str(d), '1/1000', p, q]
+                if ended and pad > 0:
+                    prog = ['pat', t0, ['seq', first, ['delta', str(pad), nxt, 'pad']]]
+                elif not ended and total - F(1, 100) > d:
+                    prog = ['pat', t0, ['seq', first, nxt]]
+            except Raise:
+                pass
+            if prog is None:
+                prog = ['pat', t0, g.pat(defs)]
         else:
             prog = ['pat', t0, g.pat(defs)]
         case = {'lat': lat, 'defs': defs, 'prog': prog}
